@@ -74,7 +74,7 @@ Example T17_example_heap :
   (exists h2 r2, roundtrip 9 18 h 0 = Some (h2, r2) /\ canon h2 r2 = canon h 0).
 Proof.
   split.
-  - intros x n H. repeat (destruct x as [|x]; [inversion H; subst; cbn; repeat constructor|]).
+  - intros x n H. do 8 (destruct x as [|x]; [inversion H; subst; cbn; repeat constructor|]).
     destruct x; discriminate.
   - split; [vm_compute; reflexivity|]. vm_compute. eexists. eexists. split; reflexivity.
 Qed.
